@@ -397,20 +397,26 @@ def _run_merge(block, env):
 
 
 def ob_merge(ctx, res):
-    """C06-A3: the per-chromosome merge, decided by running the merge block on concrete summaries for every combination of
-    (running summary has covered bases or not) x (chromosome has covered bases or not) x (which of the two has the smaller minimum / larger maximum)"""
+    """C06-A3: the per-chromosome merge, decided by running the merge statement (a `match` on the running summary, whatever its arms and guards) on concrete
+    summaries for every combination of (no running summary yet / running summary with / without covered bases) x (chromosome with / without covered bases) x
+    (which of the two has the smaller minimum / larger maximum)"""
+    from ..rules.interp import Interp, NotPure, _Return
+    FIELDS_ = ("total_items", "bases_covered", "min_val", "max_val", "sum", "sum_squares")
     for name in ("write_vals", "write_vals_no_zoom"):
         fn = ctx.ast.fn(W, name, inline=True, keep=("write_data", "future_channel", "write_chroms_with_zooms", "write_chroms_without_zooms"))
-        ms = [m for m in walk_no_nested_fn(fn.body) if m.k == "match" and len(m["arms"]) == 2 and {up(a["pat"]).split("(")[0] for a in m["arms"]} == {"None", "Some"}
-              and any("bases_covered" in up(a["body"]) and "+=" in up(a["body"]) for a in m["arms"])]
+        ms = []
+        for m in walk_no_nested_fn(fn.body):
+            if m.k != "match" or not any("bases_covered" in up(a["body"]) for a in m["arms"]):
+                continue
+            sc = up(strip(m["scrut"])).replace("&mut ", "").replace("mut ", "").strip()
+            if re.fullmatch(r"[a-z_]\w*", sc) and any(up(a["pat"]) == "None" for a in m["arms"]):
+                ms.append((m, sc))
         if len(ms) != 1:
             res.undecided("merge/%s/sites" % name, fn, "expected one per-chromosome merge (`match &mut summary { None => .., Some(..) => .. }`), found %d" % len(ms))
             continue
-        m = ms[0]
+        m, S_ = ms[0]
         na = [a for a in m["arms"] if up(a["pat"]) == "None"][0]
-        sa = [a for a in m["arms"] if up(a["pat"]).startswith("Some(")][0]
-        base = up(sa["pat"])[5:-1]
-        mm = re.fullmatch(r"\*?(\w+) = Some\((\w+)\)", up(strip(na["body"])))
+        mm = re.fullmatch(r"\{?\*?(\w+) = Some\((\w+)\);?\}?", up(strip(na["body"])))
         if not mm:
             res.fail("merge/%s/first" % name, na, "the first chromosome's summary must be taken as is (None => summary = Some(chrom_summary))")
             continue
@@ -419,54 +425,72 @@ def ob_merge(ctx, res):
         if ".destroy()" not in oo:
             res.fail("merge/%s/source" % name, m, "merged summary must be the one returned by the chromosome processor's destroy(); origin %s" % oo)
             continue
+
+        def binop(op, a, b):
+            if isinstance(a, (int, float)) and isinstance(b, (int, float)) and op in ("+", "-", "*"):
+                return a + b if op == "+" else (a - b if op == "-" else a * b)
+            raise NotPure("arithmetic")
         bad = None
+        und = None
         cases = 0
-        for sb in (0, 4):
+        for sb in (None, 0, 4):
             for cb in (0, 6):
                 for (smin, smax, cmin, cmax) in ((3.0, 7.0, 1.0, 9.0), (1.0, 9.0, 3.0, 7.0), (2.0, 5.0, 2.0, 5.0)):
-                    if sb == 0:
-                        smin_, smax_ = 0.0, 0.0      # the placeholder of a summary without covered bases
-                    else:
-                        smin_, smax_ = smin, smax
-                    if cb == 0:
-                        cmin_, cmax_ = 0.0, 0.0
-                    else:
-                        cmin_, cmax_ = cmin, cmax
-                    env = {}
-                    for b_, vals in ((base, (2, sb, smin_, smax_, 10.0, 30.0)), (other, (3, cb, cmin_, cmax_, 20.0, 50.0))):
-                        for f_, v_ in zip(("total_items", "bases_covered", "min_val", "max_val", "sum", "sum_squares"), vals):
-                            env["%s.%s" % (b_, f_)] = v_
+                    smin_, smax_ = (0.0, 0.0) if not sb else (smin, smax)      # the placeholder of a summary without covered bases
+                    cmin_, cmax_ = (0.0, 0.0) if cb == 0 else (cmin, cmax)
+                    run_rec = None if sb is None else dict(zip(FIELDS_, (2, sb, smin_, smax_, 10.0, 30.0)), __ref=True, __type="Summary")
+                    chr_rec = dict(zip(FIELDS_, (3, cb, cmin_, cmax_, 20.0, 50.0)), __type="Summary")
+                    env = {S_: None if run_rec is None else ("some", run_rec), other: chr_rec}
+                    it = Interp(ctx.ast, W, extern={"None": None, "binop": binop, "floats": True})
                     try:
-                        out = _run_merge_interp(ctx, sa["body"], env, base, other)
-                    except _MergeIdiom as e:
-                        bad = "merge block not analysable: %s" % e
+                        it.ev(m, env, 0)
+                    except _Return:
+                        pass            # an early `return` ends the per-chromosome step
+                    except NotPure as e:
+                        und = str(e)[:80]
+                        break
+                    except Exception as e:
+                        und = "%s: %s" % (type(e).__name__, str(e)[:60])
                         break
                     cases += 1
-                    want = {"total_items": 5, "bases_covered": sb + cb, "sum": 30.0, "sum_squares": 80.0}
-                    if sb and cb:
-                        want["min_val"], want["max_val"] = min(smin_, cmin_), max(smax_, cmax_)
-                    elif cb:
-                        want["min_val"], want["max_val"] = cmin_, cmax_
-                    elif sb:
-                        want["min_val"], want["max_val"] = smin_, smax_
+                    out = env.get(S_)
+                    if not (isinstance(out, tuple) and len(out) == 2 and out[0] == "some" and isinstance(out[1], dict)):
+                        bad = "after a chromosome with %d entries the running summary is %s" % (3, out)
+                        break
+                    out = out[1]
+                    if sb is None:
+                        want = {f_: chr_rec[f_] for f_ in FIELDS_}
+                    else:
+                        want = {"total_items": 5, "bases_covered": sb + cb, "sum": 30.0, "sum_squares": 80.0}
+                        if sb and cb:
+                            want["min_val"], want["max_val"] = min(smin_, cmin_), max(smax_, cmax_)
+                        elif cb:
+                            want["min_val"], want["max_val"] = cmin_, cmax_
+                        elif sb:
+                            want["min_val"], want["max_val"] = smin_, smax_
                     for f_, w_ in want.items():
-                        if out["%s.%s" % (base, f_)] != w_:
-                            bad = ("with %s covered bases so far (min %s, max %s) and a chromosome with %s covered bases (min %s, max %s) the merged %s is %s, must be %s"
-                                   % (sb, smin_, smax_, cb, cmin_, cmax_, f_, out["%s.%s" % (base, f_)], w_))
-                            if f_ in ("min_val", "max_val") and (sb == 0 or cb == 0):
+                        if out.get(f_) != w_:
+                            bad = ("with %s so far and a chromosome with 3 entries and %s covered bases (min %s, max %s) the merged %s is %s, must be %s"
+                                   % ("no summary" if sb is None else "2 entries, %s covered bases (min %s, max %s)" % (sb, smin_, smax_), cb, cmin_, cmax_, f_, out.get(f_), w_))
+                            if f_ in ("min_val", "max_val") and (not sb or cb == 0):
                                 bad += ": a chromosome (or everything before it) without a covered base only has a 0.0 placeholder, which must not be folded into min/max " \
                                        "(bigBed `chrA 0 5`, `chrB 1 1`: minimum depth 0 reported)"
+                            if f_ == "total_items":
+                                bad += ": the entries of a chromosome count also when none of them covers a base (only zero-length entries) - the count is the file's item count"
                             break
                     if bad:
                         break
-                if bad:
+                if bad or und:
                     break
-            if bad:
+            if bad or und:
                 break
-        if bad:
-            res.fail("merge/%s/semantics" % name, sa, bad)
+        if und:
+            res.undecided("merge/%s/semantics" % name, m, "merge statement outside the evaluated fragment (%s)" % und)
             continue
-        res.ok(sa, "%s: first chromosome taken as is; then items/bases/sum/sumsq added and min/max folded only between summaries that have covered bases (%d concrete cases)" % (name, cases))
+        if bad:
+            res.fail("merge/%s/semantics" % name, m, bad)
+            continue
+        res.ok(m, "%s: first chromosome taken as is; then items/bases/sum/sumsq added and min/max folded only between summaries that have covered bases (%d concrete cases)" % (name, cases))
 
 
 _AVG_CASES = [
